@@ -58,6 +58,9 @@ CHECKS = {
     'C18': dict(engine='tlc-eaomodel', technique='TLC lattice value function of EAOModel under unit injections (+1/-1 at every node and step) + TLC check of the supergradient inequalities (EAOPrices) on reported prices and real re-optimisations', cat='model_checking', ref='DESIGN.md 4 (C18)',
                 text='For LP families (composite, storage, transport, split) TLC computes the lattice optima V(0), V(+1), V(-1) of the configuration with a must-run unit contract at each (node, step); the nodal prices reported by extract_output for every solver returning duals must satisfy V(+1)-V(0) <= price <= V(0)-V(-1) (used where the lattice optimum equals the LP optimum, observed), and V(d) <= V(0)+price*d for real re-optimisations with the nodal right-hand side perturbed by d=+-1/4; all inequalities are evaluated by TLC (EAOPrices).',
                 note='LP only; prices compared only through the supergradient inequality (degenerate problems have many valid prices); trusted: TLC, HiGHS for re-optimisation.'),
+    'C17': dict(engine='tlc-eaoscenario', technique='TLC enumeration of EAOScenario (two-stage fork and robust valuation over the EAOGuards semantics) giving lattice values of SLP / wait-and-see / robust; compared with make_slp and the robust target of the real code together with the defining inequalities', cat='model_checking', ref='DESIGN.md 4 (C17), 2.5',
+                text='EAOScenario forks the state at the stage boundary (present moves common, one future per scenario, invariants PresentShared/PresentCommon) and, in robust mode, values one schedule under every scenario. TLC gives the lattice SLP optimum, per-scenario optima and best worst case. Binding: make_slp(...).optimize() lies between the expected value of fixing the present to each single-scenario solution (fix_time_window) and the mean of the per-scenario optima, equals the deterministic optimum for coinciding scenarios and the model SLP optimum on integral instances, present variables occur once in the extended problem; the robust solution is feasible, its worst case is >= that of every single-scenario solution, <= the smallest scenario optimum and >= the model best worst case.',
+                note='2-3 scenarios, T=3, boundary after first / before last step; scenarios share present prices; trusted: TLC, HiGHS.'),
 }
 
 ENGINES = [
@@ -71,6 +74,8 @@ ENGINES = [
          kind_free_text='TLA+ model of the index/mapping algorithm + Trace_EAOAssembly evaluating the C07/C15 clauses on tables logged from the real assembly'),
     dict(name='tlc-eaotime', path='spec/EAOTime.tla', serves_properties=['C19'],
          kind_free_text='TLA+ specification of time grids / sub-grids / interval data enumerated by TLC; every call replayed on the real Timegrid'),
+    dict(name='tlc-eaoscenario', path='spec/EAOScenario.tla', serves_properties=['C17'],
+         kind_free_text='TLA+ two-stage / robust scenario semantics over EAOGuards enumerated by TLC; values compared with make_slp and the robust optimisation target'),
 ]
 
 NOT_APPLICABLE = []
